@@ -98,6 +98,12 @@ where
     for x in &res { push_res(&mut out, x.clone().map(|z| z.wr()), cx); }
     push_res(&mut out, guarded(|| a.abs_sqr().wr()), cx);
     out.push_str(&format!(" {} {}", (a == b) as usize, cmp_code(a, b)));
+    // the operator forms (each of them can be overridden separately in a PartialEq / PartialOrd impl)
+    let (ne, lt, le, gt, ge) = (a != b, a < b, a <= b, a > b, a >= b);
+    let c = cmp_code(a, b);
+    cx.check(ne == !(a == b), "a != b is not the negation of a == b");
+    cx.check(lt == (c == 0) && gt == (c == 2) && le == (c == 0 || c == 1) && ge == (c == 2 || c == 1), "<, <=, >, >= disagree with partial_cmp");
+    out.push_str(&format!(" {} {} {} {} {}", ne as usize, lt as usize, le as usize, gt as usize, ge as usize));
     (out, res)
 }
 
